@@ -27,8 +27,8 @@ from ..core import Sub, fail, enc, jkey
 from .. import heapfp
 
 BOUNDS = {
-    'quick': 'operation alphabet: parse(f) for 23 residue-leaving formulas, set_variable x 2 values, set_function x 2 bodies, '
-             'on/off of a cell listener (29 operations); all histories of length <= 2 x 20 probes, debug off and on, each '
+    'quick': 'operation alphabet: parse(f) for 26 residue-leaving formulas, set_variable x 2 values, set_function x 2 bodies, '
+             'on/off of a cell listener (32 operations); all histories of length <= 2 x 23 probes, debug off and on, each '
              'history in a pristine process (fork server) against solo outcomes from pristine processes; closure '
              'search over heap fingerprints to a fixpoint (cap depth 5); repetition ladder 1,2,4,...,64 per formula for live '
              'traceback/frame counts; host-list immutability for every documented function x arity <= 2 x list-valued '
@@ -106,9 +106,10 @@ def seams():
 FORMULAS = ['SUM(1,2)+va', 'va*2', '1/0', 'nosuchvar+1', 'SUM(1/0,1)', 'MAX(NA())', '1+', '"abc', '#REF!', 'NOSUCHFN(1)',
             'FBOOM(1)', 'FSYN(1)', '{1,2}+1', 'DATE(2019,1,2)+1', 'YEAR(NOW())+RAND()', 'FN(va)&A1',
             'ABS(TRUE)&"|"&SUM("1")&"|"&INDEX({"a","b"},TRUE)', 'ABS(1.0)&"|"&SUM(1.0)&"|"&(0.0+FALSE)',
-            'B2-A1+SUM(A1:B2)', 'SUM(B2:A1)+SUM($C$3:A2)',
+            'B2-A1+SUM(A1:B2)', 'SUM(B2:A1)+SUM($C$3:A2)', 'B9&"|"&ISBLANK(D8)', 'A1+C1',
+            'IFERROR(SUM(1/0),5)&ISERROR(MAX(NA()))&IF(ISERROR(SUM(1/0)),"n/a",1)',
             'IFERROR(FBOOM(2),A1)', 'CONCATENATE(1/0,"x")', 'A1:B2']
-NPROBE = 20      # the first 20 are also probes
+NPROBE = 23      # the first 23 are also probes
 NEEDS_ZYGOTE = True
 
 
@@ -134,8 +135,16 @@ OPS = op_alphabet()
 
 
 def cell_listener(cell, setter):
-    # the value identifies the cell that was asked for (by coordinates AND by label)
+    # the value identifies the cell that was asked for (by coordinates AND by label); rows 8.. are blank
+    if cell.row.index >= 7:
+        return
     setter(100 * cell.row.index + cell.col.index + 1 + (1000 if cell.label.replace('$', '') != 'A1' else 0))
+
+
+def guard_listener(cell, setter):
+    # a second listener on the same event that refuses one cell AFTER the first listener has answered
+    if cell.label == 'C1':
+        raise ValueError('access to C1 refused')
 
 
 def range_listener(s, e, setter):
@@ -164,6 +173,7 @@ class World(object):
         elif k == 'on':
             self.p.off('callCellValue')
             self.p.on('callCellValue', cell_listener)
+            self.p.on('callCellValue', guard_listener)
         elif k == 'off':
             self.p.off('callCellValue')
         return None
@@ -270,7 +280,7 @@ class Histories(Sub):
             rest = depth - len(prefix)
             for tail in itertools.product(OPS, repeat=rest):
                 hist = prefix + list(tail)
-                if any(op[0] == 'parse' and op[1] in (2, 3, 4, 5, 6, 7, 8, 9, 10, 11, 20, 21) for op in hist):
+                if any(op[0] == 'parse' and op[1] in (2, 3, 4, 5, 6, 7, 8, 9, 10, 11, 21, 22, 23, 24) for op in hist):
                     env.nt()
                 env.note('len%d' % len(hist))
                 env.cov['traces_validated_against_impl'] = env.cov.get('traces_validated_against_impl', 0) + 1
@@ -482,7 +492,7 @@ class Retention(Sub):
         env.evals += 64
         if 'crash' in res:
             return fail('retention probe crashed: %s' % res['crash'])
-        if case in (2, 3, 4, 5, 6, 7, 8, 9, 10, 11, 20, 21):
+        if case in (2, 3, 4, 5, 6, 7, 8, 9, 10, 11, 21, 22, 23, 24):
             env.nt()
         counts, fps = res['counts'], res['fps']
         if len(set(counts[1:])) > 1 or counts[-1] > counts[0] + 2:
